@@ -467,12 +467,14 @@ def _p_worker (dpids):
 
 def p_items (quick):
   vals = (0, 1, 0x80, 0xff)
-  out = []
-  for bs in itertools.product(vals, repeat=8 if not quick else 6):
-    bs = bs if not quick else (0, 0) + bs
-    d = int.from_bytes(bytes(bs), "big")
-    if d and d != 0x77: out.append(d)
-  return out
+  out = set()
+  if quick:
+    # all 8 bytes (the two above the 48-bit MAC part included) over {0,1,0xff}; plus 0x80 in the low six
+    for bs in itertools.product((0, 1, 0xff), repeat=8): out.add(int.from_bytes(bytes(bs), "big"))
+    for bs in itertools.product(vals, repeat=6): out.add(int.from_bytes(bytes((0, 0) + bs), "big"))
+  else:
+    for bs in itertools.product(vals, repeat=8): out.add(int.from_bytes(bytes(bs), "big"))
+  return sorted(d for d in out if d and d != 0x77)
 
 
 # =====================================================================================================
